@@ -449,6 +449,7 @@ def _structure_task(args):
                 if bad is None and txt != exps[x]: bad = f'prints {txt!r}, expected {exps[x]!r}'; sty = x
             if bad is None:
                 res['ok'] += 1
+                if len(feas) == 1 and isinstance(v, (list, dict)) and len(res.setdefault('texts', [])) < 6: res['texts'].append((v, sty, txt))
                 if sty == 'Pretty' and isinstance(v, (list, dict)) and len(v) >= 2 and len(res['samples']) < 1:
                     res['samples'].append({'value': v, 'style': sty, 'text': txt, 'verdict': 'RFC 8259 text of the value with the style\'s whitespace, for every number N'})
             else:
@@ -486,6 +487,16 @@ def print_structure(ctx):
             if c['role'] not in seen: seen[c['role']] = Candidate(fam.name, c['role'], c['text'], c['model'], unmodelled=c['unmodelled'])
     fam.candidates = list(seen.values())
     from .cli import run_jawk, show
+    # translator self-check: for a sample of shapes the text the MIR execution produced (recorded by the workers) is
+    # compared with what the real binary prints
+    checked = 0
+    for r in results:
+        for v_, sty_, txt_ in r.get('texts', [])[:3]:
+            rr = run_jawk(ctx, ['--style', {'OneLine': 'one-line', 'Consise': 'consise', 'Pretty': 'pretty'}[sty_]], json.dumps(v_).encode())
+            if show(rr['stdout']) != txt_ + '\n':
+                raise Broken(f'translator self-check (printer): MIR execution prints {txt_!r} for {v_} in style {sty_}, the real binary prints {show(rr["stdout"])!r}')
+            checked += 1
+    run.notes.append(f'printer self-check: {checked} (shape, style) texts produced by the MIR execution compared with the real binary: all agree')
     for c in fam.candidates:
         v = c.model['value']; sty = c.model.get('style', 'OneLine')
         nval = c.model.get('N', 7)
